@@ -555,14 +555,29 @@ package core
 
 //@ func (*Selector).Process$1
 //@   vars out in s t res mark val
-//@   property C06
+//@   property C01 C06
 //@   option prelude=trav,json
 //@   option load=gdbi,gripql,jsonpath
 //@   nopanic
-//@   requires fresh: rd(in) == 0 && !closed(out) && in != out && out != nil && in != nil
-//@   requires recv: s != nil
+//@   requires fresh: rd(in) == 0 && wr(out) == 0 && !closed(out) && in != out && out != nil && in != nil
+//@   requires recv: s != nil && soff(s.marks) >= 0
 //@   requires items: forall j :: 0 <= j && j < len(in) ==> in[j] != nil
-//@   loop 1 invariant open: !closed(out) && 0 <= rd(in) && rd(in) <= len(in)
+//@   loop 1 invariant open: !closed(out) && 0 <= rd(in) && rd(in) <= len(in) && wr(out) == rd(in)
+//@   loop 1 invariant frame: freshonly("SH.Str")
+//@   loop 1 invariant elems: forall j :: 0 <= j && j < rd(in) ==> (tSignal(in[j]) ==> out[j] == in[j]) && (!tSignal(in[j]) ==> dyn(out[j], "*gdbi.BaseTraveler") && ptr(out[j], "*gdbi.BaseTraveler") > 0 && ptr(out[j], "*gdbi.BaseTraveler") < alloc && ptr(out[j], "*gdbi.BaseTraveler").Selections > 0 && ptr(out[j], "*gdbi.BaseTraveler").Selections < alloc &&
+//@       (forall m :: 0 <= m && m < len(s.marks) ==> has(ptr(out[j], "*gdbi.BaseTraveler").Selections, s.marks[m]) && ptr(out[j], "*gdbi.BaseTraveler").Selections[s.marks[m]] != nil &&
+//@           (tMark(in[j], s.marks[m]) != 0 ==> ptr(out[j], "*gdbi.BaseTraveler").Selections[s.marks[m]] == tMark(in[j], s.marks[m]))))
+//@   loop 2 invariant open: !closed(out) && 0 < rd(in) && rd(in) <= len(in) && wr(out) == rd(in) - 1 && !tSignal(in[rd(in) - 1]) && t == in[rd(in) - 1] && rangeindex < len(s.marks) && res > 0 && res < alloc
+//@   loop 2 invariant frame: freshonly("SH.Str")
+//@   loop 2 invariant elems: forall j :: 0 <= j && j < rd(in) - 1 ==> (tSignal(in[j]) ==> out[j] == in[j]) && (!tSignal(in[j]) ==> dyn(out[j], "*gdbi.BaseTraveler") && ptr(out[j], "*gdbi.BaseTraveler") > 0 && ptr(out[j], "*gdbi.BaseTraveler") < alloc && ptr(out[j], "*gdbi.BaseTraveler").Selections > 0 && ptr(out[j], "*gdbi.BaseTraveler").Selections < alloc &&
+//@       (forall m :: 0 <= m && m < len(s.marks) ==> has(ptr(out[j], "*gdbi.BaseTraveler").Selections, s.marks[m]) && ptr(out[j], "*gdbi.BaseTraveler").Selections[s.marks[m]] != nil &&
+//@           (tMark(in[j], s.marks[m]) != 0 ==> ptr(out[j], "*gdbi.BaseTraveler").Selections[s.marks[m]] == tMark(in[j], s.marks[m]))))
+//@   loop 2 invariant building: forall m :: 0 <= m && m <= rangeindex ==> has(res, s.marks[m]) && res[s.marks[m]] != nil && (tMark(t, s.marks[m]) != 0 ==> res[s.marks[m]] == tMark(t, s.marks[m]))
+//@   ensures closed: closed(out)
+//@   ensures drained: rd(in) == len(in) && wr(out) == len(in)
+//@   ensures elems: forall j :: 0 <= j && j < len(in) ==> (tSignal(in[j]) ==> out[j] == in[j]) && (!tSignal(in[j]) ==> dyn(out[j], "*gdbi.BaseTraveler") && ptr(out[j], "*gdbi.BaseTraveler") > 0 && ptr(out[j], "*gdbi.BaseTraveler") < alloc && ptr(out[j], "*gdbi.BaseTraveler").Selections > 0 && ptr(out[j], "*gdbi.BaseTraveler").Selections < alloc &&
+//@       (forall m :: 0 <= m && m < len(s.marks) ==> has(ptr(out[j], "*gdbi.BaseTraveler").Selections, s.marks[m]) && ptr(out[j], "*gdbi.BaseTraveler").Selections[s.marks[m]] != nil &&
+//@           (tMark(in[j], s.marks[m]) != 0 ==> ptr(out[j], "*gdbi.BaseTraveler").Selections[s.marks[m]] == tMark(in[j], s.marks[m]))))
 
 //@ func (*ValueSet).Process$1
 //@   vars out in s t
